@@ -25,3 +25,36 @@ def c03m4_reports(ex, st, expr, the_type, name):
     reported_iff_kind_matches_status)."""
     f = uf('c03m4_reports', Val, Val, Val, z3.BoolSort())
     return v_bool(f(ex.box(st, expr), ex.box(st, the_type), ex.box(st, name)))
+
+
+@spec('c03m4_reported_upto')
+def c03m4_reported_upto(ex, st, lst, the_type, k, name):
+    """U(lst, kind, k, name): "one of the first k formulas of the list `lst` (its content at ENTRY of the function) reports
+    `name` for `kind`", i.e. exists q in [0, k): c03m4_reports(lst[q], kind, name) - written without a quantifier, by the
+    DEFINING primitive recursion on k (a conservative extension: total, one equation per constructor of the naturals)
+
+        U(l, t, 0, x)     = False
+        U(l, t, k + 1, x) = U(l, t, k, x) or c03m4_reports(l[k], t, x)          (k >= 0)
+
+    so that loop invariants and postconditions that say "only reported names are collected" stay in the forall fragment
+    (the forall-exists form is not decided by z3 / cvc5 on IdManager.prepare).  The two equations are added to the path
+    condition once per state, together with their instance at the given arguments."""
+    from pyvc.vals import as_int, as_ref, fresh_name
+    I = z3.IntSort()
+    U = uf('c03m4_upto', I, Val, I, Val, z3.BoolSort())
+    R = uf('c03m4_reports', Val, Val, Val, z3.BoolSort())
+    elems0 = st.heap0.get('$elems')
+    if elems0 is None:
+        elems0 = z3.Const('H0!$elems', st.field('$elems').sort())
+    L, T, K, X = as_ref(lst), ex.box(st, the_type), as_int(k), ex.box(st, name)
+    if ('c03m4_upto',) not in st.ghost:
+        st.ghost[('c03m4_upto',)] = True
+        l, q = z3.Int(fresh_name('l')), z3.Int(fresh_name('q'))
+        t, x = z3.Const(fresh_name('t'), Val), z3.Const(fresh_name('x'), Val)
+        st.pc.append(z3.ForAll([l, t, x], z3.Not(U(l, t, 0, x)), patterns=[U(l, t, 0, x)]))
+        st.pc.append(z3.ForAll([l, t, q, x], z3.Implies(q >= 0, U(l, t, q + 1, x) == z3.Or(U(l, t, q, x), R(z3.Select(z3.Select(elems0, l), q), t, x))),
+                               patterns=[U(l, t, q + 1, x)]))
+        ex.ctx.note('DEFINITION c03m4_reported_upto: primitive recursion on the number of formulas (conservative)')
+    st.assume(z3.Implies(K == 0, z3.Not(U(L, T, K, X))))
+    st.assume(z3.Implies(K >= 1, U(L, T, K, X) == z3.Or(U(L, T, K - 1, X), R(z3.Select(z3.Select(elems0, L), K - 1), T, X))))
+    return v_bool(U(L, T, K, X))
